@@ -557,3 +557,132 @@ func genDirected(r *vh.Rng, driver string, variant int, sweep int) *Case {
 	c.Units = us
 	return c
 }
+
+// ---- pattern cases: header/footer regular expressions of every kind, raw lines on which "has that
+//      prefix" / "contains" / "equals" differ, white-space-only lines as legal units ----
+
+var patPool = []string{`^B$`, `^E$`, `TOTAL`, `,X,`, `^H,`, `^ABC`, `^ABC.*$`, `^(B|C)`, `^[A-C]`, `3$`,
+	`^\s*$`, `^ `, `\.`, `^a\+b`, `^T`, `E`, `^\t`, `^D`, `^Z9$`, `^(Eggs|TOTAL),`, `[0-9]$`, `B`}
+
+var linePool = []string{"B", "E", "Bananas,3", "Eggs,12", "TOTAL", "xTOTAL", "TOTAL,9", "a,X,b", "H,1", "ABC",
+	"ABCD,2", "C,1", "A,3", "a+b", "a.b", "T", "   ", "\t", " \t ", "  ", "Ex", "BE", "D,4", "Z9", "Z9x", " B",
+	" ", "\t\t", "H", "aTOTALb,1"}
+
+func linesMatching(p string) []string {
+	var out []string
+	for _, l := range linePool {
+		if reOf(p).MatchString(l) {
+			out = append(out, l)
+		}
+	}
+	return out
+}
+
+func genPat(r *vh.Rng) *Case {
+	next := 0
+	var mk func(depth int, n int) []*Decl
+	mk = func(depth int, n int) []*Decl {
+		var out []*Decl
+		for i := 0; i < n; i++ {
+			d := &Decl{Name: 100 + next}
+			next++
+			o := occurrences[r.Pick(len(occurrences))]
+			d.Min, d.Max = o[0], o[1]
+			if depth > 1 && next < 5 && r.Chance(0.35) {
+				d.Kids = mk(depth-1, r.Between(1, 2))
+			}
+			if len(d.Kids) > 0 && r.Chance(0.5) {
+				d.Group = true
+			} else {
+				switch r.Pick(4) {
+				case 0:
+					d.Leaf = Leaf{Kind: "rows", K: r.Between(1, 3)}
+				case 1:
+					d.Leaf = Leaf{Kind: "pat", HRe: patPool[r.Pick(len(patPool))], FRe: patPool[r.Pick(len(patPool))]}
+				default:
+					d.Leaf = Leaf{Kind: "pat", HRe: patPool[r.Pick(len(patPool))]}
+				}
+			}
+			out = append(out, d)
+		}
+		return out
+	}
+	ds := mk(2, r.Between(1, 3))
+	var all []*Decl
+	walk(ds, func(d *Decl) { all = append(all, d) })
+	if r.Chance(0.85) {
+		all[r.Pick(len(all))].Target = true
+	}
+	anyLine := func() string {
+		if r.Chance(0.25) {
+			return []string{"   ", "\t", " \t ", "  ", " ", "\t\t"}[r.Pick(6)]
+		}
+		return linePool[r.Pick(len(linePool))]
+	}
+	matching := func(p string) string {
+		if ls := linesMatching(p); len(ls) > 0 && r.Chance(0.9) {
+			return ls[r.Pick(len(ls))]
+		}
+		return anyLine()
+	}
+	var lines []string
+	var inst func(d *Decl)
+	seq := func(ds []*Decl) {
+		for _, d := range ds {
+			hi := d.Max
+			if hi < 0 || hi > d.Min+1 {
+				hi = d.Min + 1
+			}
+			for i, k := 0, r.Between(d.Min, hi); i < k && len(lines) < 14; i++ {
+				inst(d)
+			}
+		}
+	}
+	inst = func(d *Decl) {
+		if !d.Group {
+			switch d.Leaf.Kind {
+			case "rows":
+				for i := 0; i < d.Leaf.K; i++ {
+					lines = append(lines, anyLine())
+				}
+			case "pat":
+				lines = append(lines, matching(d.Leaf.HRe))
+				if d.Leaf.FRe != "" {
+					for i, k := 0, r.Pick(3); i < k; i++ {
+						lines = append(lines, anyLine())
+					}
+					lines = append(lines, matching(d.Leaf.FRe))
+				}
+			}
+		}
+		seq(d.Kids)
+	}
+	seq(ds)
+	for r.Chance(0.4) && len(lines) < 14 {
+		switch r.Pick(3) {
+		case 0:
+			p := r.Pick(len(lines) + 1)
+			lines = append(lines[:p], append([]string{anyLine()}, lines[p:]...)...)
+		case 1:
+			if len(lines) > 0 {
+				p := r.Pick(len(lines))
+				lines = append(lines[:p], lines[p+1:]...)
+			}
+		case 2:
+			if len(lines) > 0 {
+				lines[r.Pick(len(lines))] = anyLine()
+			}
+		}
+	}
+	if len(lines) > 14 {
+		lines = lines[:14]
+	}
+	us := make([]Unit, len(lines))
+	for i, l := range lines {
+		us[i] = Unit{ID: i + 1, Raw: l}
+		if r.Chance(0.08) {
+			us[i].Blank = 1
+		}
+	}
+	return &Case{Driver: "direct", Decls: ds, Units: us, Release: r.Pick(3), Pat: true}
+}
